@@ -103,6 +103,14 @@ func verifyFunction(p *Program, fn *ssa.Function, c *Contract) (s *Session, err 
 	f.bindParams(args, nil)
 	f.entryHeap = s.entry // alias: grows as keys are discovered
 	f.assumeTypeInvariants()
+	for _, ax := range p.Contracts.Axioms {
+		g := *f
+		g.calleePkg = ax.Label
+		g.hypMode = true
+		t := g.evalClause(ax, s.entry, s.entry, nil)
+		s.fact(t)
+		s.assume("axiom (" + ax.File + "): " + ax.Text)
+	}
 	// modifies clauses
 	for _, m := range c.Modifies {
 		f.resolveModifies(m)
